@@ -264,7 +264,7 @@ pub fn check(cfg: &Cfg) -> Result<i32, Harness> {
             "evaluations": (schedules + miri_runs).max(1),
             "distinct_nontrivial": interleavings.len().min(tally.get("nontrivial_interleavings") as usize),
             "programs": table_programs,
-            "rule": "S0: the simthreads crate, which asserts `Filter<DataKind>: Send + Sync`, `Filter<JustLut<Val>>: Send + Sync`, `Lut: Send + Sync` and (feature jaq-json/sync) `Val: Send + Sync`, is compiled against the working tree in both flavours. S1: for 64 hand-written terminating programs (regex with different flags, formats, dates, closures, lazily created nested labels, folds, updates, paths, codecs) plus one or two calls of every filter the tree defines (natives and jq-coded definitions discovered at run time; clock, environment, input stream and halting filters excluded) x 9 inputs the output streams are computed in a fresh process per program that does nothing else (isolated oracle); then shuttle runs seeded random and PCT(depth 3) schedules of 2-4 threads sharing one compiled filter per program, each thread pulling one output per scheduling step, one thread in ten also compiling and running another program in between, and - in the sync flavour - half of the threads working on one value shared between them; every stream must equal the isolated one, recompilation must succeed iff it does in isolation, and the shared value must be unchanged. An interleaving is the sequence of thread ids in pull order; distinct = distinct interleavings (hash) among non-trivial ones; non-trivial = at least T context switches (not a concatenation of complete runs).",
+            "rule": "S0: the simthreads crate, which asserts `Filter<DataKind>: Send + Sync`, `Filter<JustLut<Val>>: Send + Sync`, `Lut: Send + Sync` and (feature jaq-json/sync) `Val: Send + Sync`, is compiled against the working tree in both flavours. S1: for 64 hand-written terminating programs (regex with different flags, formats, dates, closures, lazily created nested labels, folds, updates, paths, codecs) plus one or two calls of every filter the tree defines (natives and jq-coded definitions discovered at run time; clock, environment, input stream and halting filters excluded) x 9 inputs the output streams are computed in a fresh process per program that does nothing else (isolated oracle); then shuttle runs seeded random and PCT(depth 3) schedules of 2-4 threads sharing one compiled filter per program, each thread pulling one output per scheduling step, one thread in ten also compiling and running another program in between, and - in the sync flavour - half of the threads working on one value shared between them; every stream must equal the isolated one, recompilation must succeed iff it does in isolation, and the shared value must be unchanged. An interleaving is the sequence of thread ids in pull order; distinct = distinct interleavings (hash) among non-trivial ones; non-trivial = at least T context switches (not a concatenation of complete runs). Inputs include a five-key nested object; twelve programs perform a single update each (del, |= empty, delpaths, to_entries, with_entries, +=, =) so that alone the program holds the only handle to its input while under a schedule half of the threads hold handles of one shared value. The Miri stratum is built with jaq-json/sync and additionally runs five restructuring programs per thread on a handle of one shared value (compared with runs on a sole handle; the shared value is compared with its original at the end).",
             "schedules": pick("schedules:"),
             "static_facts": pick("static_facts_hold:"),
             "threads_run": tally.get("threads"),
